@@ -18,6 +18,12 @@ stdout: JSON list of
                      "head": first line of the text error_msg returned (`In <file>:<line>[:<col>]`),
                      "tail": what follows the message on its line (` at line L col C.`), "message", "fs", "macros"} ...]
       -- strengthening round 3: every call of exception.error_msg
+      -- strengthening round 4: each error_msg record also holds "site": [file, line, function] of the frame that built the
+         exception (the raise site), "tend": Token.end, "tlen": Token.length, "trec": the end position the tokenizer recorded
+         for a string literal (Token._macro_end; null on a tree without fixes/C14-string-literal-end.patch);
+         each Tokenizer.parse record holds "ends": [[line, col, end_line, end_col, length], ...] of its STRING tokens;
+         each "derived" record of parse_func_args / parse_list / parse_js_obj / parse_component / parse_param holds "res"
+         (the structure returned) or "err" {"message", "token"} (the JMC diagnostic it raised)
       -- strengthening round 2: bodies handed over as raw source text by construction (functions, methods, decorated and
          @lazy functions, classes): content must sit at (line, col) of file_string
       -- strengthening round 1: every OTHER tokenizer entry point that builds tokens from tokens
@@ -94,6 +100,11 @@ def main():
                           "tl": self.line, "tc": self.col, "cited": cited_of(str(e))}
             raise
         rec["out"] = {"kind": "ok", "programs": tok_list(res)}
+        try:
+            rec["ends"] = [[t.line, t.col] + list(t.end) + [t.length] + [getattr(t, "_macro_end", None) is not None]
+                           for stmt in res for t in stmt if t.token_type.name == "STRING"]
+        except Exception:  # noqa
+            rec["ends"] = None
         return res
 
     T.Tokenizer.parse = parse
@@ -132,13 +143,34 @@ def main():
                 in_toks = [tk(t) for t in ins(a, kw)]
             except Exception:  # noqa
                 return orig(self, *a, **kw)
-            res = orig(self, *a, **kw)
+            try:
+                res = orig(self, *a, **kw)
+            except EXCEPTIONS as e:
+                try:
+                    tok = getattr(e, "token", None)
+                    rec = {"fn": name, "fs": fs_index(self), "macros": bool(Header().macros),
+                           "inner": n0 if n0 is not None and len(state["calls"]) > n0 else None,
+                           "in": in_toks, "out": [],
+                           "err": {"message": str(getattr(e, "message", ""))[:200], "token": None if tok is None else tk(tok),
+                                   "has_token": hasattr(e, "token")}}
+                    if rec["fs"] is not None:
+                        state["derived"].append(rec)
+                except Exception:  # noqa
+                    pass
+                raise
             try:
                 rec = {"fn": name, "fs": fs_index(self), "macros": bool(Header().macros),
                        "inner": n0 if n0 is not None and len(state["calls"]) > n0 else None,
                        "in": in_toks, "out": [tk(t) for t in outs(a, kw, res)]}
                 if name == "parse_func_args":
                     rec["kwargs"] = {k: [tk(t) for t in v] for k, v in res[1].items()}
+                    rec["res"] = {"args": [[tk(t) for t in g] for g in res[0]], "kwargs": [[k, [tk(t) for t in v]] for k, v in res[1].items()]}
+                elif name == "parse_list":
+                    rec["res"] = {"list": [tk(t) for t in res]}
+                elif name in ("parse_js_obj", "parse_component"):
+                    rec["res"] = {"dict": [[k, tk(v)] for k, v in res.items()]}
+                elif name == "parse_param":
+                    rec["res"] = {"params": list(res)}
                 if rec["fs"] is not None:
                     state["derived"].append(rec)
             except Exception:  # noqa
@@ -149,7 +181,7 @@ def main():
     def first_arg(a, kw, key):
         return a[0] if a else kw[key]
 
-    for nm in ("parse_func_args", "parse_list", "parse_js_obj", "parse_component"):
+    for nm in ("parse_func_args", "parse_list", "parse_js_obj", "parse_component", "parse_param"):
         if hasattr(T.Tokenizer, nm):
             wrap(nm, lambda a, kw: [first_arg(a, kw, "token")], lambda a, kw, res: flat(res))
     if hasattr(T.Tokenizer, "merge_tokens"):
@@ -227,7 +259,27 @@ def main():
                     head = msg.split("\n", 1)[0]                 # `In <file>:<line>[:<col>]`
                     rest = msg[len(head) + 1:]
                     tail = rest[len(message):].split("\n", 1)[0] if isinstance(message, str) and rest.startswith(message) else None
+                    site = None
+                    try:
+                        fr = sys._getframe(1)
+                        while fr is not None and os.path.basename(fr.f_code.co_filename) == "exception.py":
+                            fr = fr.f_back
+                        if fr is not None:
+                            fn_ = fr.f_code.co_filename
+                            k_ = fn_.rfind("/jmc/")
+                            site = [fn_[k_ + 5:] if k_ >= 0 else os.path.basename(fn_), fr.f_lineno, fr.f_code.co_name]
+                    except Exception:  # noqa
+                        site = None
+                    tend = tlen = trec = None
+                    if token is not None:
+                        try:
+                            tend, tlen = list(token.end), token.length
+                            trec = getattr(token, "_macro_end", None)
+                            trec = list(trec) if trec is not None else None
+                        except Exception:  # noqa
+                            pass
                     state["errs"].append({
+                        "site": site, "tend": tend, "tlen": tlen, "trec": trec,
                         "token": None if token is None else tk(token), "tl": getattr(tokenizer, "line", None),
                         "tc": getattr(tokenizer, "col", None), "cl": bool(col_length), "dcl": bool(display_col_length),
                         "el": bool(entire_line), "head": head, "tail": tail, "message": str(message)[:200],
